@@ -352,11 +352,15 @@ func (sel *Selection) beginEdit(r NodeRequest, bubble bool) error {
 	var begun []NodeRequest
 	for {
 		if err := r.Selection.Node.BeginEdit(r); err != nil {
-			// nodes that were already told the edit begins have to hear it ended
+			// nodes that were already told the edit begins have to hear it ended;
+			// what they answer is reported next to the failure that ended the edit
+			errs := []error{err}
 			for i := len(begun) - 1; i >= 0; i-- {
-				begun[i].Selection.Node.EndEdit(begun[i])
+				if endErr := begun[i].Selection.Node.EndEdit(begun[i]); endErr != nil {
+					errs = append(errs, endErr)
+				}
 			}
-			return err
+			return errors.Join(errs...)
 		}
 		begun = append(begun, r)
 		if r.Selection.parent == nil || !bubble {
@@ -371,11 +375,11 @@ func (sel *Selection) beginEdit(r NodeRequest, bubble bool) error {
 func (sel *Selection) endEdit(r NodeRequest, bubble bool) error {
 	r.Selection = sel
 	// every node that was told the edit begins is told it ended, even when one
-	// of them fails; the first failure is what gets reported
+	// of them fails; every failure is reported
 	var firstErr error
 	for {
-		if err := r.Selection.Node.EndEdit(r); err != nil && firstErr == nil {
-			firstErr = err
+		if err := r.Selection.Node.EndEdit(r); err != nil {
+			firstErr = errors.Join(firstErr, err)
 		}
 		if r.Selection.parent == nil || !bubble {
 			break
